@@ -27,7 +27,7 @@ Definition process_event_src (eng : engine) (pr : bool) (m : machine) (ev : even
   fun s =>
     let ts := select_transitions m (s_cfg s) (guard_of m (s_cfg s) (s_ctx s)) ev in
     for_each (fun t => fun s' =>
-                if Nat.ltb 1 (List.length ts) && negb (mem (t_src t) (s_cfg s'))
+                if (match eng with Async => skip_stale_async | _ => skip_stale_sync end) m (s_cfg s') ts t     (* the translated skip test *)
                 then (s', None) else exec_transition_src eng pr m t ev s') ts s.
 
 Section SourceStep.
@@ -53,6 +53,10 @@ Section SourceStep.
     process_event_src eng pr m ev s = process_event eng pr m ev s.
   Proof.
     intros HI Hg. unfold process_event_src, process_event. cbn zeta.
+    replace (match eng with Async => skip_stale_async | _ => skip_stale_sync end)
+      with (fun (m0 : machine) (C : list nat) (ts0 : list trans) (t0 : trans) => Nat.ltb 1 (List.length ts0) && negb (mem (t_src t0) C))
+      by (destruct eng; reflexivity).
+    cbn beta.
     assert (Hgo : forall t, passes m (s_cfg s) (s_ctx s) t = Some (guard_of m (s_cfg s) (s_ctx s) t)).
     { intros t. unfold guard_of. specialize (Hg t). now destruct (passes m (s_cfg s) (s_ctx s) t). }
     pose proof (select_is_the_source m (s_cfg s) (s_ctx s) ev _ Hgo) as Hsel. rewrite Hsel.
